@@ -38,6 +38,9 @@ func Method(f string, recv *Term, as ...*Term) *Term {
 	return &Term{Op: "call", Name: f, Args: append([]*Term{recv}, as...), Not: "method"}
 }
 func Ternary(c, a, b *Term) *Term { return &Term{Op: "call", Name: "if", Args: []*Term{c, a, b}, Not: "ternary"} }
+func DCallT(callee *Term, as ...*Term) *Term {
+	return &Term{Op: "dcall", Args: append([]*Term{callee}, as...)}
+}
 func ObjT(names []string, vals ...*Term) *Term {
 	return &Term{Op: "obj", Fields: names, Args: vals}
 }
@@ -188,6 +191,30 @@ func (t *Term) render(b *strings.Builder) {
 		t.Args[0].renderPrimary(b)
 		b.WriteByte('.')
 		b.WriteString(t.Name)
+	case "dcall":
+		// a call whose callee is an arbitrary expression
+		switch t.Args[0].Op {
+		case "var", "group", "sub", "dcall", "call", "mem":
+			if t.Args[0].Op == "call" && t.Args[0].Not != "" && t.Args[0].Not != "method" {
+				b.WriteByte('(')
+				t.Args[0].render(b)
+				b.WriteByte(')')
+			} else {
+				t.Args[0].render(b)
+			}
+		default:
+			b.WriteByte('(')
+			t.Args[0].render(b)
+			b.WriteByte(')')
+		}
+		b.WriteByte('(')
+		for i, a := range t.Args[1:] {
+			if i > 0 {
+				b.WriteString(", ")
+			}
+			a.render(b)
+		}
+		b.WriteByte(')')
 	case "call":
 		switch t.Not {
 		case "infix":
